@@ -8,7 +8,7 @@ use crate::run::{lib_call, CallErr, Outcome, RunCfg};
 use i_tree::seg::exp::{SegExpCollection, SegRange};
 use i_tree::seg::tree::SegExpTree;
 
-pub const SEG_OPS: &[&str] = &["ins", "query", "adv", "clear", "queryall", "pins", "pquery"];
+pub const SEG_OPS: &[&str] = &["ins", "query", "adv", "clear", "queryall", "pins", "pquery", "qval"];
 pub const S_INS: u8 = 0;
 pub const S_QUERY: u8 = 1;
 pub const S_ADV: u8 = 2;
@@ -16,6 +16,9 @@ pub const S_CLEAR: u8 = 3;
 pub const S_QUERYALL: u8 = 4;
 pub const S_PINS: u8 = 5;
 pub const S_PQUERY: u8 = 6;
+/// `qval j style`: query exactly the range under which the j-th value inserted since the last clear
+/// was stored (a sweep line asks again for the ranges it inserted)
+pub const S_QVAL: u8 = 7;
 
 pub trait Coord: Copy + 'static
 where
@@ -137,6 +140,7 @@ where
     next_id: u32,
     dropped_iter_before: bool,
     max_values: i64,
+    inserts_after_clear: u32,
     tmax: i64,
 }
 
@@ -231,6 +235,7 @@ where
         next_id: 0,
         dropped_iter_before: false,
         max_values: case.get_i64("max_values", i64::MAX),
+        inserts_after_clear: 0,
         tmax: case.get_i64("Tmax", i64::MAX),
     };
     if r.lay.shift > 0 {
@@ -248,7 +253,7 @@ where
         if r.out.failure.is_some() || r.out.blocked.is_some() {
             break;
         }
-        if [S_QUERY, S_PQUERY, S_QUERYALL].contains(&op.kind) {
+        if [S_QUERY, S_PQUERY, S_QUERYALL, S_QVAL].contains(&op.kind) {
             if i >= last_look + 100 {
                 r.out.class("sparse_observations");
             }
@@ -347,7 +352,7 @@ where
         if self.rc.progress {
             let observed = match op.kind {
                 S_INS | S_PINS => self.rc.obs(15) || self.rc.obs(3),
-                S_QUERY | S_PQUERY | S_QUERYALL => self.rc.obs(3) || self.rc.obs(15) || self.rc.obs(16),
+                S_QUERY | S_PQUERY | S_QUERYALL | S_QVAL => self.rc.obs(3) || self.rc.obs(15) || self.rc.obs(16),
                 S_CLEAR => self.rc.obs(12),
                 _ => false,
             } || self.rc.obs(10);
@@ -364,7 +369,33 @@ where
                 let d = if op.kind == S_INS { op.args[4] } else { op.args[2] };
                 // d == 9 stands for "never expires": the expiration type's maximum
                 let exp = if d == 9 { i32::MAX } else { self.clock.saturating_add((d.rem_euclid(5) - 1) as i32) };
-                self.insert(i, lo, hi, exp)
+                let step = self.insert(i, lo, hi, exp);
+                // C12: after each of the first inserts that follow a clear, one point query per bucket
+                // (every place is a leftover candidate; a point query reaches a stale copy below the
+                // value's top place, which a wider query would attribute to the top place and skip)
+                if matches!(step, Step::Continue) && self.rc.obs(12) && self.twin.is_some() && self.inserts_after_clear < 3 && self.rc.inject.is_none() && !self.rc.inject_all {
+                    self.inserts_after_clear += 1;
+                    let nb = self.lay.nbuckets();
+                    for b in 0..nb {
+                        let x = self.lay.first_of(b);
+                        if let Step::Stop = self.query(i, x, x, 0, 0, false) {
+                            return Step::Stop;
+                        }
+                        self.out.callbacks.pop();
+                    }
+                    self.out.class("post_clear_point_sweep");
+                }
+                step
+            }
+            S_QVAL => {
+                if self.model.is_empty() {
+                    self.out.degraded += 1;
+                    self.out.callbacks.push(0);
+                    return Step::Continue;
+                }
+                let m = self.model[op.args[0].rem_euclid(self.model.len() as i64) as usize];
+                self.out.class("query_range_of_stored_value");
+                self.query(i, m.lo, m.hi, op.args[1].rem_euclid(6) as usize, (op.args[1].rem_euclid(36) / 6) as usize, false)
             }
             S_QUERY | S_PQUERY | S_QUERYALL => {
                 // args[4] = 6 * style + k: how the query iterator is consumed (see `drain_query`)
@@ -416,6 +447,7 @@ where
                 }
                 trace!(self, "#{} clear(); clock {} -> {}", i, self.clock, newclock);
                 self.clock = newclock;
+                self.inserts_after_clear = 0;
                 self.model.clear();
                 self.out.class("after_clear");
                 if self.rc.obs(12) {
@@ -425,13 +457,10 @@ where
                     self.out.class("twin_started");
                     // right after clear: a whole-domain query at the lowest time must be empty
                 }
-                if self.rc.obs_any(crate::run::p(16) | crate::run::p(12)) {
-                    let n = self.tree.verif_copies().len();
-                    if n != 0 {
-                        let pn = if self.rc.obs(12) { 12 } else { 16 };
-                        self.out.fail(pn, "copies-after-clear", i, format!("SegExpTree: {} copies are still stored after clear()", n));
-                        return Step::Stop;
-                    }
+                // (copies physically left behind by clear() are not reported: C12 speaks of what can be
+                // observed, and a stale copy that matters shows up in the twin comparison below)
+                if !self.tree.verif_copies().is_empty() {
+                    self.out.class("copies_left_by_clear");
                 }
                 Step::Continue
             }
